@@ -532,10 +532,14 @@ def run_check(pid, tier, seed, assumptions):
 
     # ---- the real code
     nrand = 6000 if thorough else 330
-    batches = [("tlc", ["--scripts", spath]), ("random", ["--random", nrand, "--profile", prof])]
+    # (several moderate batches rather than one large one: after every rejected run -- known findings
+    #  included -- the rest of its batch is validated again)
+    chunk = 1000 if thorough else nrand
+    batches = [("tlc", ["--scripts", spath])]
+    batches += [("random" if k == 0 else "random%d" % (k + 1), ["--random", chunk, "--profile", prof]) for k in range(nrand // chunk)]
     if pid == "C07":
         # late preimages followed by a reorganisation of the tip and rebroadcast requests
-        batches.append(("reorg", ["--random", 500 if thorough else 40, "--profile", "c07r"]))
+        batches += [("reorg" if k == 0 else "reorg%d" % (k + 1), ["--random", 100 if thorough else 40, "--profile", "c07r"]) for k in range(3 if thorough else 1)]
     nviol, total_events, total_runs, panics, known_hits = 0, 0, 0, 0, {}
     stats, good_traces, bad_runs = {}, [], {}
     for bi, (bname, args) in enumerate(batches):
